@@ -27,6 +27,9 @@ not call the model.
 """
 import json
 import struct
+import sys
+
+INT_DIGIT_LIMIT = sys.get_int_max_str_digits()     # taken BEFORE any agent code is imported (the setting is process-wide)
 
 import core
 from rig import Rig, MockFrame
@@ -730,12 +733,24 @@ def model_val(e):
     return e
 
 
+def compact_int(v):
+    """integers stay themselves up to 50 digits; huge ones become a short text (a replay file must stay loadable: json
+    refuses integer literals beyond the interpreter's digit limit)"""
+    if isinstance(v, int) and not isinstance(v, bool) and abs(v) >= 10 ** 50:
+        return 'big:%s%d bits:%09d' % ('-' if v < 0 else '', abs(v).bit_length(), abs(v) % 10 ** 9)
+    return v
+
+
+def compact_out(o):
+    return {'ok': compact_int(o['ok'])} if isinstance(o, dict) and 'ok' in o else o
+
+
 def outcome(fn):
     try:
         v = fn()
         if isinstance(v, bool) or not isinstance(v, int):
             return {'value': repr(v)}
-        return {'ok': v}
+        return {'ok': compact_int(v)}
     except Exception as e:  # noqa: B902
         return {'raised': type(e).__name__}
 
@@ -752,7 +767,9 @@ def val_dump(v):
     if isinstance(v, float):
         import math
         return 'nan' if v != v else 'inf' if v in (float('inf'), float('-inf')) else {'float': math.trunc(v)}
-    return 'other'
+    if isinstance(v, (list, dict, tuple, set)) or type(v) is object:
+        return 'other'
+    return 'unmodelled'              # bytes, Decimal, Fraction, objects with their own __int__: not in the model's ArgVal
 
 
 def run_argint(case):
@@ -799,10 +816,13 @@ def ref_int_of(e, default):
     m = INT_TEXT.match(v)
     if not m or any(unicodedata.decimal(c, None) is None for c in m.group(2) if c != '_'):
         return default
+    digits = [c for c in m.group(2) if c != '_']
+    limit = INT_DIGIT_LIMIT
+    if limit and len(digits) > limit:
+        return default               # more decimal digits (leading zeros count) than the interpreter accepts: ValueError
     n = 0
-    for c in m.group(2):
-        if c != '_':
-            n = n * 10 + unicodedata.decimal(c)
+    for c in digits:
+        n = n * 10 + unicodedata.decimal(c)
     return -n if m.group(1) == '-' else n
 
 
@@ -818,8 +838,8 @@ def oracle_argint(case, obs):
         if exp == 'outside':
             if 'ok' in got or 'value' in got:
                 v.append(f'{what} of {case["args"].get(key)!r} returned {got}; it is neither a number nor text')
-        elif got != {'ok': exp}:
-            v.append(f'{what} with {key}={case["args"].get(key, "<absent>")!r}: {got}, the value asks for {exp} '
+        elif got != {'ok': compact_int(exp)}:
+            v.append(f'{what} with {key}={str(case["args"].get(key, "<absent>"))[:80]!r}: {got}, the value asks for {compact_int(exp)} '
                      f'(default {dflt})')
     return v
 
@@ -1150,7 +1170,7 @@ def compare(case, obs, resp):
     if k == 'argint':
         d = []
         for f in ('get_arg_int', 'tp_fire_count', 'loc_fire_count', 'loc_fire_period', 'tp_frame_type', 'tp_condition'):
-            if obs[f] != resp[f]:
+            if obs[f] != compact_out(resp[f]):
                 d.append(f'{f} of {json.dumps(case["args"], ensure_ascii=True)[:200]}: implementation {obs[f]} model {resp[f]}')
         if resp['get_arg_int'] != resp['loc_get_int']:
             d.append('model: get_arg_int and __get_int differ')
@@ -1425,7 +1445,10 @@ def gen_redeliver(rng):
 
 INT_TEXTS = [' 3 ', '\u0661\u0662', '1_0', '+2', '1e3', '', '-1', '0', '007', '١٢٣', '-१०', '\u00a07\u3000', '1\u0662',
              '1__0', '_1', '1_', '+', '- 1', '1.5', '0x10', 'abc', '²', '\u2160', '１２', '12\u200b', ' \t-5\n', '9' * 30,
-             '\x1c4', 'True', 'None', '٣_٤', '1 0', '+-1', '٠', '𝟙𝟚']
+             '\x1c4', 'True', 'None', '٣_٤', '1 0', '+-1', '٠', '𝟙𝟚',
+             # CPython's limit on the number of decimal digits of integer text (sys.get_int_max_str_digits(), 4300)
+             '9' * 4300, '9' * 4301, '-' + '9' * 4300, '-' + '9' * 4301, '0' * 4301, '0' * 5 + '9' * 4296, '0' * 4299 + '7',
+             '1_' * 2150 + '1', ' ' * 10 + '9' * 4300 + ' ', '٩' * 4301, '٩' * 4300, '+' + '0' * 4400, '9' * 5000]
 
 
 def gen_argint(rng):
